@@ -28,3 +28,12 @@ Definition table4 : list (string * (val -> val)) :=
                  else if str_eqb tag (s2l "delete") then EDeleteAfter
                  else if str_eqb tag (s2l "replace") then EReplaceAfter (as_str (arg 1 e)) else ENop in
        VL (map VS (apply_edit ed (Z.to_nat (as_Z (arg 1 v))) (map as_str (as_list (arg 2 v)))))) ]%string.
+From CDD Require Import DoctransFlow.
+Definition knode_of (v : val) : knode :=
+  {| k_kind := as_str (arg 0 v); k_text := as_str (arg 1 v); k_docstr := as_bool (arg 2 v); k_start := as_Z (arg 3 v); k_end := as_Z (arg 4 v);
+     k_name := as_opt_str (arg 5 v) |}.
+Definition defn_of (v : val) : defn :=
+  {| d_lineno := as_Z (arg 0 v); d_kind := as_str (arg 1 v); d_name := as_opt_str (arg 2 v); d_doc := as_str (arg 3 v); d_header := fun h => h |}.
+Definition table5 : list (string * (val -> val)) :=
+  [ ("doctransify_docs", fun v =>   (* [[kind, text, is_docstr, start, end, name|N]..., [[lineno, kind, name|N, doc]...]] -> texts (headers left alone) *)
+       VL (map (fun c => VS (k_text c)) (doctransify (map knode_of (as_list (arg 0 v))) (map defn_of (as_list (arg 1 v)))))) ]%string.
